@@ -68,12 +68,15 @@ def _case(draw):
     reqs = draw(st.lists(_request(), min_size=2, max_size=10))
     # concentrate most steps on one or two targets (so that caches written by one protocol are read by another)
     focus = draw(st.lists(st.sampled_from([0, 5, 10, 1, 2, 3, 4, 6, 7]), min_size=1, max_size=2))
+    alias = draw(st.booleans())
+    if alias:
+        focus = [1, 2]  # the aliased directory and its alias (see check_case)
     for rq in reqs:
         if draw(st.integers(0, 9)) < 7:
             rq["target"] = draw(st.sampled_from(focus))
             rq["mut"] = draw(st.sampled_from(["none", "none", "none", "slash"]))
             rq["raw"] = None
-    return {"mode": "history", "full": full, "site": site, "reqs": reqs}
+    return {"mode": "history", "full": full, "site": site, "reqs": reqs, "alias": alias}
 
 
 def strategy(tier):
@@ -300,6 +303,16 @@ def check_case(case, ctx):
     objs = sites.objects(case["site"])
     spec = sites.to_spec(case["site"])
     full = case["full"]
+    if case.get("alias"):
+        # a second name for a real directory: a symlink in the root (the tree stays inside the root)
+        dirs = [o for o in objs if o["what"] == "dir" and not re.search(r"[|?\t\r\n]", o["sel"])]
+        if dirs and not any(o["sel"] == "/zzalias" for o in objs):
+            spec.append(["zzalias", "l", dirs[0]["sel"].lstrip("/")])
+            alias = {"sel": "/zzalias", "kind": "menu", "what": "diralias", "content": None}
+            # index 0 is never addressed (target % 5 == 0 is the root): put the pair where the focus targets 1, 2 land
+            objs = [objs[0], dirs[0], alias] + [o for o in objs[1:] if o is not dirs[0]] if objs[0] is not dirs[0] else \
+                [dirs[0], alias, dirs[0]] + objs[1:]
+            ctx.label("history:directory-alias")
     if case["mode"] == "single":
         d, root = world.build(spec)
         try:
